@@ -6,7 +6,7 @@
 (* ones.  Finished programs are exported as JSON (inputs only).          *)
 EXTENDS EQLSyntax, Json
 
-CONSTANTS G,           \* grammar: "G12" (NV variables), "G3" for_all, "G6" sub-queries, "G7i"/"G7o" flatten, "G7c" concatenate
+CONSTANTS G,           \* grammar: "G12" (NV variables), "G3s"/"G3v"/"G1x" three-variable vocabularies, "G3" for_all, "G6" sub-queries, "G7i"/"G7o" flatten, "G7c" concatenate
           NV,          \* number of declared variables for G12
           LeafLimit,   \* use the first LeafLimit leaves of the vocabulary
           MaxLeaves,   \* leaves per tree
@@ -19,6 +19,11 @@ AllLeaves == CASE G = "G12" -> (IF NV = 1 THEN LeavesG1 ELSE LeavesG2(NV))
                [] G = "G3v" -> << PredC("p_lt", <<At(V(2), "m"), At(V(3), "n")>>, "fn"), InC(V(2), At(V(1), "refs"), "contains"),
                                   CmpC("eq", At(V(1), "n"), LitI(0)), CmpC("ge", At(V(3), "m"), At(V(2), "m")),
                                   CmpC("eq", At(V(1), "n"), At(V(3), "m")), CmpC("lt", At(V(2), "n"), At(V(1), "m")) >>
+               \* variables compared directly (not through an attribute), for pools of queries that share their variables
+               [] G = "G3s" -> << CmpC("ge", At(V(1), "n"), LitI(1)), CmpC("eq", V(2), At(V(3), "ref")),
+                                  CmpC("lt", At(V(2), "n"), LitI(2)), CmpC("gt", At(V(1), "n"), At(V(2), "n")),
+                                  CmpC("ne", At(V(3), "ref"), V(2)), CmpC("eq", At(V(1), "m"), At(V(3), "m")),
+                                  CmpC("eq", V(1), At(V(2), "ref")), CmpC("le", At(V(3), "n"), LitI(1)) >>
                [] G = "G1x" -> Cat([i \in 1..NV |-> Some(CoreLeaves(V(i)), 2)])    \* independent single-variable leaves
                [] G = "G3"  -> LeavesG3
                [] G = "G6"  -> LeavesG6
@@ -32,6 +37,8 @@ Sel(desc, sel) == [desc |-> desc, sel |-> sel, flats |-> <<>>, bound |-> <<>>]
 SelF(desc, sel, src) == [desc |-> desc, sel |-> sel, flats |-> <<src>>, bound |-> <<>>]
 Selections ==
   CASE G = "G1x" -> << Sel("set_of", [j \in 1..NV |-> V(j)]), Sel("set_of", [j \in 1..NV |-> V(NV + 1 - j)]) >>
+    [] G = "G3s" -> << Sel("set_of", <<V(1), V(2), V(3)>>), Sel("set_of", <<V(1), V(2)>>), Sel("set_of", <<V(2), V(3)>>),
+                       Sel("entity", <<V(2)>>) >>
     [] G = "G3v" -> << Sel("set_of", <<V(3), V(1)>>), Sel("set_of", <<V(1), V(2), V(3)>>), Sel("entity", <<V(2)>>) >>
     [] G = "G12" ->
        (IF NV = 1 THEN << Sel("entity", <<V(1)>>) >>
